@@ -1,10 +1,21 @@
 """Per-property registration data for MANIFEST.json."""
 
-HOOK_COMMITS = []
+HOOK_COMMITS = ["9a1a70b"]
 
 TB = "Trusted base: TLC 1.8.0 + CommunityModules (Json), the Go toolchain and standard library, the harness projections."
 
 CHECKS = {
+    "C03": dict(
+        text="ParseIsolation.tla models contentstream.Parser at the granularity Push/Copy/Clear with per-parser or shared pending "
+             "operands; TLC proves Isolation for the per-parser layer over all interleavings of 2 processes x 2 calls x streams <= 3 "
+             "tokens and refutes it for the shared layer. Every behaviour of a small instance and simulated behaviours of a larger one "
+             "are replayed on real parsers on real goroutines, gated one spec action at a time by the verif hook; histories of whole "
+             "extractions (alone, after others, after failing inputs, concurrent under the race detector) are validated by "
+             "DeterminismTrace.tla, which accepts only function-like histories and never a Race event.",
+        design_ref="4.3",
+        note=TB + " Goroutine schedules outside the gated parser are sampled; the race detector is trusted as an observer.",
+        technique="TLA+ interleaving model + TLC, deterministic schedule replay through a build-tag hook, trace validation of extraction histories",
+    ),
     "C08": dict(
         text="GState.tla is the ISO 32000 graphics/text-state machine (one action per operator). TLC checks its invariants "
              "exhaustively (all programs to a bounded length over a 21-operator alphabet, and refutes the post-multiplying "
